@@ -272,6 +272,20 @@ func buildReport(e *Engine, prop, tier string, ts []*fnTrans, trusted []*FuncCon
 		r.Faults = append(r.Faults, "vacuity: unreachable under the contract's assumptions: "+c)
 		r.EngineFault = true
 	}
+	if len(r.CoverFail) > 0 && r.Violations == 0 {
+		// No obligation failed, yet a return / loop head that is reachable on the unchanged tree (every cover query passes there:
+		// a run with a cover failure is never accepted) is now unreachable under the contracts the function relies on: the code
+		// contradicts an assumed callee contract, lock invariant or its own precondition on every path to that point. Reported as
+		// a violation of the obligation `<fn>/cover[..]` (no input: the contradiction is between code and contracts).
+		for _, c := range r.CoverFail {
+			path := filepath.Join(out, "replay", "cover_"+sanitize(c)+".txt")
+			os.WriteFile(path, []byte("obligation: "+c+"\nkind: cover (reachability / vacuity guard)\nverdict: the point is unreachable under the contract's assumptions although no other obligation failed.\n"+
+				"On the unchanged tree this query is satisfiable; the change made the code contradict the contracts it relies on (callee contracts, lock invariants, preconditions),\n"+
+				"so every clause after the contradiction holds vacuously. no-failing-input-found\n"), 0o644)
+			r.ViolLines = append(r.ViolLines, fmt.Sprintf("VIOLATION property=%s replay=%s no-failing-input-found", prop, path))
+			r.Violations++
+		}
+	}
 	for a := range assume {
 		r.Assumptions = append(r.Assumptions, a)
 	}
